@@ -46,6 +46,8 @@ def models():
         "Flow(LU+MAF ctx|StandardNormal)": (lambda: perturb(FL.base.Flow(TR.CompositeTransform([TR.LULinear(3, identity_init=False), TR.MaskedAffineAutoregressiveTransform(3, 8, context_features=3, num_blocks=1)]), D.StandardNormal([3]))), (3,), "optional", 3, False),
         "Flow(RQ coupling tails ctx|StandardNormal)+embedding": (lambda: perturb(FL.base.Flow(TR.PiecewiseRationalQuadraticCouplingTransform([1, 0, 1], res(2), num_bins=4, tails="linear", tail_bound=3.0), D.StandardNormal([3]), embedding_net=torch.nn.Linear(3, 2))), (3,), "required", 3, False),
         "Flow(RQ coupling + unconditional transform|StandardNormal)": (lambda: perturb(FL.base.Flow(TR.PiecewiseRationalQuadraticCouplingTransform([1, 0, 1], res(None), num_bins=4, tails="linear", tail_bound=3.0, apply_unconditional_transform=True), D.StandardNormal([3]))), (3,), "none", 0, False),
+        "Flow(Inverse(MAF ctx)|StandardNormal)": (lambda: perturb(FL.base.Flow(TR.InverseTransform(TR.MaskedAffineAutoregressiveTransform(3, 8, context_features=3, num_blocks=1)), D.StandardNormal([3])), 5), (3,), "required", 3, False),
+        "Flow(NaiveLinear cached + affine|StandardNormal)": (lambda: perturb(FL.base.Flow(TR.CompositeTransform([TR.NaiveLinear(3, orthogonal_initialization=False, using_cache=True), TR.PointwiseAffineTransform(shift=torch.tensor([0.3, -0.2, 0.1]), scale=torch.tensor([1.5, 0.7, 2.0]))]), D.StandardNormal([3])), 7), (3,), "none", 0, False),
         "MaskedAutoregressiveFlow": (lambda: perturb(FL.MaskedAutoregressiveFlow(3, 8, num_layers=2, num_blocks_per_layer=1)), (3,), "none", 0, False),
         "SimpleRealNVP": (lambda: perturb(FL.SimpleRealNVP(4, 8, num_layers=2, num_blocks_per_layer=1)), (4,), "none", 0, False),
         "StandardNormal": (lambda: D.StandardNormal([3]), (3,), "optional", 3, False),
